@@ -238,25 +238,27 @@ def run(ctx):
 
     # ---- 1. design-level model checking (in the background while the real code is driven)
     mc_res = {}
+    if ctx.quick():
+        groups = [[("NotifyOutbox.MC.cfg", 2, 600), ("NotifyOutbox.MCSafety.cfg", 2, 600)]]
+    else:
+        groups = [[("NotifyOutbox.MCLive2.cfg", 6, 3000)],
+                  [("NotifyOutbox.MCFull.cfg", 4, 3000), ("NotifyOutbox.MCEb.cfg", 4, 1800),
+                   ("NotifyOutbox.MCTwoWorkers.cfg", 4, 1800), ("NotifyOutbox.MC.cfg", 4, 900)]]
 
-    def mc_job():
+    def mc_job(group):
         try:
-            if ctx.quick():
-                mc_res["live"] = ctx.mc("NotifyOutbox", "NotifyOutbox.MC.cfg", workers=2, timeout=600)
-                mc_res["safe"] = ctx.mc("NotifyOutbox", "NotifyOutbox.MCSafety.cfg", workers=2, timeout=600)
-            else:
-                mc_res["live"] = ctx.mc("NotifyOutbox", "NotifyOutbox.MC.cfg", workers=4, timeout=1200)
-                mc_res["live2"] = ctx.mc("NotifyOutbox", "NotifyOutbox.MCTwoWorkers.cfg", workers=4, timeout=2400)
-                mc_res["safe"] = ctx.mc("NotifyOutbox", "NotifyOutbox.MCFull.cfg", workers=6, timeout=3000)
+            for cfg, workers, timeout in group:
+                mc_res[cfg] = ctx.mc("NotifyOutbox", cfg, workers=workers, timeout=timeout)
         except BaseException as e:  # noqa
             mc_res["error"] = e
 
-    mc_thread = threading.Thread(target=mc_job)
-    mc_thread.start()
+    mc_threads = [threading.Thread(target=mc_job, args=(g,)) for g in groups]
+    for t in mc_threads:
+        t.start()
 
     try:
         # ---- 2. GEN: cases from random walks over the spec's own actions
-        ncases = ctx.pick(90, 1400)
+        ncases = ctx.pick(70, 1400)
         cases = []
         batches = ctx.pick([(ncases, 45, 8)], [(500, 45, 8), (500, 70, 12), (400, 30, 5)])
         for bi, (num, depth, maxmut) in enumerate(batches):
@@ -362,6 +364,12 @@ def run(ctx):
                   "final": s["final"]}
         for f in ("inner", "config", "save1", "commit", "precommit"):
             needed["rollback:" + f] = s["rolled_back_by_fault"].get(f, 0)
+        all_events = {"ObjectCreated:Put", "ObjectCreated:Copy", "ObjectCreated:CompleteMultipartUpload", "ObjectRemoved:Delete",
+                      "ObjectRemoved:DeleteMarkerCreated", "ObjectTagging:Put", "ObjectTagging:Delete",
+                      "LifecycleExpiration:Delete", "LifecycleExpiration:DeleteMarkerCreated", "LifecycleTransition:"}
+        seen_events = set(s["event_names_enqueued"]) & all_events
+        needed["event_names(%d of %d)" % (len(seen_events), len(all_events))] = \
+            1 if len(seen_events) >= ctx.pick(7, len(all_events)) else 0
         missing = [k for k, v in needed.items() if v == 0]
         if missing and not ctx.violations:
             raise vlib.Infra("behaviour the property depends on was never exercised: %s" % missing)
@@ -374,7 +382,8 @@ def run(ctx):
         for c in (ok_cases[:2] or per_case[:2]):
             ctx.sample([{k: v for k, v in r.items() if k != "rows"} for r in c[1][:12]])
     finally:
-        mc_thread.join()
+        for t in mc_threads:
+            t.join()
     if "error" in mc_res:
         raise mc_res["error"]
 
